@@ -185,9 +185,16 @@ func runWorld(r *core.Run, n *core.Node, cid string, kinds []kind, eitherAccepte
 		}
 		c.cs = cs
 		c.store = ck.ClientStore(ctx, c.name)
-		if uint64(cs.GetDelayBlock()) != c.delay || cs.GetLatestHeight().GetRevisionHeight() != c.head {
-			r.Inconclusive("world %s: client %s reports delay %d head %s, harness configured %d/%d", cid, c.name, cs.GetDelayBlock(), cs.GetLatestHeight(), c.delay, c.head)
+		if cs.GetLatestHeight().GetRevisionHeight() != c.head {
+			r.Inconclusive("world %s: client %s reports head %s, harness configured %d", cid, c.name, cs.GetLatestHeight(), c.head)
 			return
+		}
+		// The number of confirmation blocks the client itself reports is NOT taken over: the oracle keeps its own
+		// reading of "the required number" (ETH: the configured BlockDelay; BSC: floor(N/2)+1 for N validators, the
+		// Parlia finality heuristic the client documents), so that a client that derives another number is judged by the
+		// height cases (a proof one block short of the required confirmations must be refused).
+		if uint64(cs.GetDelayBlock()) != c.delay {
+			r.Count("client_reports_other_delay_than_the_oracle/"+c.typ, 1)
 		}
 	}
 
